@@ -125,10 +125,25 @@ class Posting:
                 self.sm.pseudoboolencoding(q, bool(con[3]))
             self.exprs.append((e, con[1]))
         else:
-            e = pb.Expr()
-            for (v, s, c) in con[1]:
-                e = e + c * self.lit((v, s))
-            if isinstance(con[3], int):
+            if len(con) > 5 and con[5] == 'negmul':
+                # the same left-hand side written as -1 * (1 - sum) + 1 (a negative multiple of an expression with a constant)
+                e = pb.Expr() + 1
+                for (v, s, c) in con[1]:
+                    e = e + (-c) * self.lit((v, s))
+                e = e * -1 + 1
+            elif len(con) > 5 and con[5] == 'twice':
+                # 2 * (sum) compared with 2 * bound is the same constraint
+                e = pb.Expr()
+                for (v, s, c) in con[1]:
+                    e = e + c * self.lit((v, s))
+                e = 2 * e
+            else:
+                e = pb.Expr()
+                for (v, s, c) in con[1]:
+                    e = e + c * self.lit((v, s))
+            if len(con) > 5 and con[5] == 'twice':
+                rhs = 2 * con[3]
+            elif isinstance(con[3], int):
                 rhs = con[3]
             else:
                 rhs = pb.Expr() + con[3][0]
@@ -137,7 +152,7 @@ class Posting:
             op = con[2]
             q = (e >= rhs) if op == '>=' else (e <= rhs) if op == '<=' else (e > rhs) if op == '>' else \
                 (e < rhs) if op == '<' else (e == rhs)
-            self.exprs.append((e, con[1]))
+            self.exprs.append((e, [[v, s, 2 * c] for (v, s, c) in con[1]] if len(con) > 5 and con[5] == 'twice' else con[1]))
             self.sm.pseudoboolencoding(q, bool(con[4]))
 
     def cnf(self):
@@ -402,6 +417,11 @@ def run_shard(shard, tier, res):
             if con[1][0][2] != shard['c0'] or tuple(t[1] for t in con[1][:3]) != POL3[shard['pol']]:
                 continue
             check_case(dict(pre=[], same=[con]), res)
+            if con[4] == 0 and len(con[1]) == 3:
+                # the same inequality with its left-hand side built through integer multiples of expressions
+                check_case(dict(pre=[], same=[con + ['negmul']]), res)
+                if con[2] in ('>=', '<'):
+                    check_case(dict(pre=[], same=[con + ['twice']]), res)
         res.samples.append(dict(pre=[], same=[['pb', [['a', 1, shard['c0']], ['b', 0, 2], ['c', 1, -1]], '>=', 1, 0]]))
     elif k == 'pb4':
         for con in pb_cases(4, shard['coefs'], False):
